@@ -444,6 +444,10 @@ def gather_check_mvn(d, idx):
             for q in range(E_):
                 s1 = [int(s[bi + (p,)]) for s in sel]
                 s2 = [int(s[bi + (q,)]) for s in sel]
+                if p != q and s1 == s2 and s1[:nb] != list(bi)[:nb]:
+                    # precondition of the contract (DESIGN 10.4): a batch index tensor that becomes the event dimension selects DISTINCT
+                    # elements; the same batch element selected twice (e.g. indices 1 and -1 of a batch of 2) is outside it
+                    continue
                 want = cov[tuple(s1[:nb]) + (s1[-1], s2[-1])] if s1[:nb] == s2[:nb] else torch.zeros((), dtype=cov.dtype)
                 if not torch.allclose(rc[bi + (p, q)], want, atol=1e-10):
                     return {"violates": True, "detail": f"cov entry {bi + (p, q)}: got {rc[bi + (p, q)].item():.6f}, components {s1},{s2} give {want.item():.6f}"}
